@@ -327,6 +327,19 @@ def b64_tables(ctx, rule="B64-TABLE"):
         direct = [b for b in nexts if any(b in cfg.reachable(f, pairb[0], avoid={h}) for h in hdrs)]
         ctx.check(bool(direct), rule, "a packed pair consumes the peeked character", "", "after packing two characters into one, streamname::encode does not advance past the second: it is encoded again", f.loc(), fn=f.name,
                   key=rule + "|encode-consume")
+    # a packable character is never stored raw: within one iteration, the push of the unmodified character is not reachable from the `Some` edge of its own to_b64
+    # (raw ASCII letters fall under the container's case-insensitive name comparison, packed ones do not)
+    raw = [b for b, n, a, t in cs if n.endswith("String::push") and re.fullmatch(r"call@\d+:.*Iterator>?::next@Some\.0", a[1])]
+    cur = [(b, t) for b, n, a, t in cs if n.endswith("to_b64") and re.fullmatch(r"call@\d+:.*Iterator>?::next@Some\.0", a[0])]
+    okr = bool(raw) and len(cur) == 1
+    if okr:
+        sw = f.blocks[cur[0][1]["succ"][0]]["term"]
+        some_edges = [tg for v, tg in sw.get("cases", []) if v == 1] if sw["t"] == "switch" else []
+        if sw["t"] == "switch" and not some_edges and sw["cases"] and sw["cases"][0][0] == 0:
+            some_edges = [sw["otherwise"]]
+        okr = bool(some_edges) and not any(r in cfg.reachable(f, e, avoid=set(hdrs)) for e in some_edges for r in raw)
+    ctx.check(okr, rule, "a packable character is never stored raw", "", "streamname::encode can push a character unmodified although to_b64 accepted it (for instance when the following "
+              "character cannot be packed): names that differ only in the case of such a letter collapse into one container entry", f.loc(), fn=f.name, key=rule + "|encode-raw")
     marker = [a for b, n, a, t in cs if n.endswith("String::push") and a[1] == "c:18496"]
     ctx.check(len(marker) == 1 and has_fact(S, marker[0] and [b for b, n, a, t in cs if n.endswith("String::push") and a[1] == "c:18496"][0], r"^p2$", True), rule, "table marker U+4840 only for tables", "",
               "encode does not push U+4840 exactly when is_table", f.loc(), fn=f.name, key=rule + "|marker")
